@@ -90,4 +90,4 @@ Theorem C01_shared_refuted_solo :
   let sched := [0; 0; 1; 1; 1; 0; 0; 0] in
   snd (run_schedule Lexer.token rr_pst (list (bool * nat)) lexfun_real pin rr_step false init sched) 0
   <> solo Lexer.token rr_pst (list (bool * nat)) lexfun_real pin rr_step false t1 (count_occ Nat.eq_dec sched 0).
-Proof. intro H. vm_compute in H. discriminate H. Qed.
+Proof. cbv zeta. intro H. vm_compute in H. discriminate H. Qed.
